@@ -259,6 +259,27 @@ fn leave_while_disconnected(g: &mut G, out: &mut FOut) {
 pub fn c03(seed: u64, budget: u64) -> FOut {
     let mut out = FOut::default();
     out.rule = "formed clusters of n = 2..7 real instances (fault-free settling first), then a non-empty proper subset crashes or leaves gracefully at a random event index; latencies < probe_rtt/4; monitors: every survivor that listed a failed member as active notifies MemberDown for it within (2n+1) probe periods + suspect_to_down_after (+ latency slack), no survivor is declared Down / goes Defunct, a leaver is reported Down at once by the members it told, and after leaving it sends nothing but TurnUndead; one run in five: an instance leaves while momentarily Disconnected (it announced and leaves before the Feed arrives; or its only known peer just left and a third member still lists it) - it must end defunct and be reported Down within the bound by whoever listed it. distinct = distinct (n, subset, crash|leave, config)".into();
+    // no survivor is declared Down: a member that refuted a suspicion (incarnation i -> i+1) and is under a NEW
+    // suspicion at its newer incarnation when the timeout of the refuted one fires stays as it is
+    for notify in [false, true] {
+        let own = VId::new(9, 1, 0, 0);
+        let mut cfg = crate::falsify::big_cfg();
+        cfg.notify_down_members = notify;
+        let mut a = Inst::new(own, &cfg, seed ^ 0xC03D, 0, 255);
+        let s_id = VId::new(2, 0, 0, 0);
+        crate::model::run_real(&mut a.foca, &Input::ApplyMany(vec![MMember { id: s_id, inc: 0, state: 1 }, MMember { id: VId::new(3, 0, 0, 0), inc: 0, state: 0 }], false));
+        let tok = a.snapshot().token;
+        // refuted, then suspected again at the newer incarnation (gossip from another member)
+        crate::model::run_real(&mut a.foca, &Input::ApplyMany(vec![MMember { id: s_id, inc: 1, state: 0 }], false));
+        crate::model::run_real(&mut a.foca, &Input::ApplyMany(vec![MMember { id: s_id, inc: 1, state: 1 }], false));
+        let pre = a.snapshot();
+        let (effs, o) = crate::model::run_real(&mut a.foca, &Input::Timer(MTimer::SuspectToDown(s_id, 0, tok)));
+        let post = a.snapshot();
+        out.runs += 1;
+        if !effs.is_empty() || post != pre {
+            out.hit("C03:survivor-declared-down-by-a-stale-timeout", J::s(format!("{s_id:?} refuted the suspicion at incarnation 0 and is Suspect at 1; the timeout for incarnation 0 fires: {o:?}, effects {effs:?}, record now {:?}", post.members.iter().find(|m| m.id == s_id))));
+        }
+    }
     let mut g = G::new(seed ^ 0xC03);
     for _run in 0..budget {
         if g.chance(20) {
@@ -413,6 +434,27 @@ pub fn c04(seed: u64, budget: u64) -> FOut {
 pub fn c05(seed: u64, budget: u64) -> FOut {
     let mut out = FOut::default();
     out.rule = "clusters of n = 3..7 real instances with renewable identities, notify_down_members and periodic_announce_to_down_members; every two-sided split shape (random sides), partition held until both sides declared each other Down (checked), heal at a random instant; in a quarter of the runs a second outage of the same nodes timed so that the forget-timers of the first outage fire while the second partition is on; also the asymmetric case (one live member falsely declared Down through a forged suspicion timeout); monitors: every instance told it is down reports Rejoin (never Defunct) with an identity that wins against the previous one and Active afterwards; within 6n+10 announce-to-down periods every live instance lists every other under its current identity, provided one side kept >= 2 members. distinct = distinct (n, split, config)".into();
+    // the announcer's Down record may name a FORMER identity of the target (it renewed just before the partition
+    // completed): an Announce from a member held Down, addressed to the current or to a former identity of the
+    // receiver, is answered by exactly one TurnUndead - the only way the announcer learns that it is down
+    for former in [false, true] {
+        for kind in [0u8, 1] {
+            let own = VId::new(3, 2, kind, 0);
+            let mut cfg = crate::falsify::big_cfg();
+            cfg.notify_down_members = true;
+            let mut b = Inst::new(own, &cfg, seed ^ 0xC05D, 0, 255);
+            let a_id = VId::new(1, 0, 1, 0);
+            crate::model::run_real(&mut b.foca, &Input::ApplyMany(vec![MMember { id: a_id, inc: 0, state: 2 }, MMember { id: VId::new(2, 0, 0, 0), inc: 0, state: 0 }], false));
+            let dst = if former { VId::new(3, 1, kind, 0) } else { own };
+            let d = header_bytes(&foca::Header { src: a_id, src_incarnation: 0, dst, message: foca::Message::Announce });
+            let (effs, o) = crate::model::run_real(&mut b.foca, &Input::Data(d));
+            out.runs += 1;
+            let told = effs.iter().filter(|e| matches!(e, Eff::Send(to, bytes) if *to == a_id && crate::model::split_datagram(bytes).map(|x| x.0.message == foca::Message::TurnUndead).unwrap_or(false))).count();
+            if told != 1 {
+                out.hit("C05:down-sender-not-told", J::s(format!("{own:?} holds {a_id:?} Down; an Announce from it addressed to {dst:?} ({}): {o:?}, TurnUndead replies {told}, effects {effs:?}", if former { "a former identity of the receiver" } else { "the receiver" })));
+            }
+        }
+    }
     let mut g = G::new(seed ^ 0xC05);
     let mut second_outages = 0u64;
     for _run in 0..budget {
